@@ -108,9 +108,16 @@ def c06(tier, seed):
                 jobs.append(J('vh_c06_strings', [n, m, l, 3], 'replace |s|=%d |p|=%d |r|=%d' % (n, m, l), cost=3 ** (n + m)))
                 jobs.append(J('vh_c06_strings', [n, m, l, 4], 'replace_all |s|=%d |p|=%d |r|=%d' % (n, m, l), cost=4 ** (n + m)))
         jobs.append(J('vh_c06_strings', [n, 0, 0, 1], 'substr |s|=%d' % n, cost=3 ** n))
+    # longer subject / pattern combinations for the search loop (self-overlapping patterns need |p| >= 3, |s| >= 4)
+    extra = [(4, 3), (4, 2), (5, 3)] if tier == 'quick' else [(5, 3), (5, 4), (6, 3)]
+    for n, m in extra:
+        jobs.append(J('vh_c06_strings', [n, m, 0, 0], 'contains etc. |s|=%d |t|=%d' % (n, m), cost=3 ** (n + m)))
+        jobs.append(J('vh_c06_strings', [n, m, 0, 2], 'indexof |s|=%d |t|=%d' % (n, m), cost=3 ** (n + m)))
+        jobs.append(J('vh_c06_strings', [n, m, 1, 3], 'replace |s|=%d |p|=%d |r|=1' % (n, m), cost=3 ** (n + m)))
+        jobs.append(J('vh_c06_strings', [n, m, 1, 4], 'replace_all |s|=%d |p|=%d |r|=1' % (n, m), cost=4 ** (n + m)))
     return {'jobs': jobs,
-            'bounds': '|s| <= %d, |pattern| <= %d, |replacement| <= %d (every length combination); every character symbolic over [0,0x2FFFF]; '
-                      'index and length arguments symbolic over the full i32 range' % (smax, tmax, rmax),
+            'bounds': ('|s| <= %d, |pattern| <= %d, |replacement| <= %d (every length combination) plus (|s|,|p|) in EXTRA; every character symbolic over [0,0x2FFFF]; '
+                       'index and length arguments symbolic over the full i32 range' % (smax, tmax, rmax)).replace('EXTRA', str(extra)),
             'outside': ['longer strings']}
 
 
@@ -199,11 +206,15 @@ def built_shapes(tier):
 def built_jobs(tier, whats):
     jobs = []
     L = 1 if tier == 'quick' else 2
-    names = {0: 'structure', 1: 'remove_unreachable', 2: 'minimize', 3: 'prune+minimize'}
+    names = {0: 'structure', 1: 'remove_unreachable', 2: 'minimize', 3: 'prune+minimize', 4: 'minimize+prune'}
+    if 0 in whats:
+        jobs.append(J('vh_c14_built', [2, 1, 1, 0, 0, 0, 0, 1], 'built automaton structure: 2 states whose labels [0,x] and [x+1,MAX] jointly tile the alphabet', cost=500))
+    if 4 in whats:
+        jobs.append(J('vh_c14_built', [3, 0, 0, 0, 0, L, 4, 0], 'built automaton minimize+prune: 3 states with default successors only', cost=500))
     for n, kk in built_shapes(tier):
         k4 = (kk + [0, 0, 0, 0])[:4]
         for what in whats:
-            jobs.append(J('vh_c14_built', [n] + k4 + [L if what else 0, what],
+            jobs.append(J('vh_c14_built', [n] + k4 + [L if what else 0, what, 0],
                           'built automaton %s: %d states, transitions per state %s, |w|=%d' % (names[what], n, kk, L if what else 0),
                           cost=(3 ** sum(kk)) * (n ** (sum(kk) + n))))
     return jobs
@@ -211,21 +222,22 @@ def built_jobs(tier, whats):
 
 def c13(tier, seed):
     jobs = []
-    anys = [(1, 1), (1, 2), (2, 1)] if tier == 'quick' else [(1, 1), (1, 2), (1, 3), (2, 1), (2, 2), (3, 1)]
-    for n, k in anys:
-        jobs.append(J('vh_c13_any', [n, k], 'arbitrary spec: %d states x %d transitions (labels may overlap, defaults optional)' % (n, k), cost=10 ** (n * k)))
+    anys = [[1], [2], [1, 1], [2, 0], [0, 2]] if tier == 'quick' else [[1], [2], [3], [1, 1], [2, 0], [0, 2], [2, 1], [2, 2], [1, 1, 1], [2, 0, 0]]
+    for kk in anys:
+        n = len(kk)
+        jobs.append(J('vh_c13_any', [n] + (kk + [0, 0, 0, 0])[:4], 'arbitrary spec: %d states, transitions per state %s (labels may overlap, defaults optional)' % (n, kk), cost=10 ** sum(kk) * 3 ** n))
     for n, kk in built_shapes(tier):
         k4 = (kk + [0, 0, 0, 0])[:4]
         jobs.append(J('vh_c13_complete', [n] + k4, 'complete spec: %d states, transitions per state %s' % (n, kk), cost=3 ** sum(kk)))
     return {'jobs': jobs,
-            'bounds': 'AutomatonBuilder<u32>; arbitrary call sequences with %s (states x transitions per state): every label end point, target, default '
+            'bounds': 'AutomatonBuilder<u32>; arbitrary call sequences with transitions per state in %s: every label end point, target, default '
                       'flag/target and final mark symbolic, witness character symbolic; complete specifications of shapes %s' % (anys, built_shapes(tier)),
             'outside': ['more states / transitions per state', 'other key types than u32 (BaseRegLan keys are exercised through compile in C02)',
                         'acceptance of overlapping labels with equal targets is not demanded (documented as rejected)']}
 
 
 def c14(tier, seed):
-    jobs = built_jobs(tier, [0, 1])
+    jobs = built_jobs(tier, [0, 1, 4])
     nm = [(1, 1), (2, 2), (3, 2), (2, 3), (3, 3)] if tier == 'quick' else [(1, 1), (2, 2), (3, 2), (2, 3), (3, 3), (4, 3), (3, 4), (4, 4)]
     for n, m in nm:
         for d in (0, 1):
@@ -239,7 +251,7 @@ def c14(tier, seed):
 
 def c04(tier, seed):
     jobs = []
-    nm = [(1, 1), (2, 1), (2, 2), (3, 1), (3, 2)] if tier == 'quick' else [(1, 1), (2, 1), (2, 2), (3, 1), (3, 2), (3, 3), (4, 1), (4, 2)]
+    nm = [(1, 1), (2, 1), (2, 2), (3, 1), (3, 2), (4, 1), (4, 2)] if tier == 'quick' else [(1, 1), (2, 1), (2, 2), (3, 1), (3, 2), (3, 3), (4, 1), (4, 2), (4, 3), (5, 1)]
     for n, m in nm:
         jobs.append(J('vh_c04_table', [n, m], 'Hopcroft on an arbitrary %d-state %d-letter table' % (n, m), cost=(n ** (n * m)) * 2 ** n))
     jobs += built_jobs(tier, [2, 3])
@@ -342,12 +354,13 @@ def c19(tier, seed):
 
 def c16(tier, seed):
     prs = S.pairs(tier, seed, 120)
-    ns, b = ((2, 3), 2) if tier == 'quick' else ((1, 2, 3, 4), 2)
+    ns, b = ((2,), 2) if tier == 'quick' else ((1, 2, 3, 4), 2)
+    ext = 0 if tier == 'quick' else 1
     jobs = []
     for (r, s2) in prs:
         for n in ns:
             toks = S.tokens(r) + S.tokens(s2)
-            jobs.append(J('vh_c16_incl', [0, n, b, 0] + toks, 'included_in %s <= %s |w|=%d' % (S.show(r), S.show(s2), n),
+            jobs.append(J('vh_c16_incl', [0, n, b, ext] + toks, 'included_in %s <= %s |w|=%d' % (S.show(r), S.show(s2), n),
                           cost=4 ** (S.nsym(r) + S.nsym(s2)) * 3 ** n))
     return {'jobs': jobs,
             'bounds': '%d ordered pairs of shapes (symbolic ranges/characters/loop bounds), strings of length %s with symbolic characters; '
@@ -356,19 +369,45 @@ def c16(tier, seed):
 
 
 def c07(tier, seed):
-    shapes = regex_shapes('C07', tier, seed, cap_quick=24, cap_thorough=60)
+    shapes = regex_shapes('C07', tier, seed, cap_thorough=60)
+    costs = S._costs()
+    if tier == 'quick':
+        # histories multiply the paths of a shape by 64: the history harness takes the cheapest shapes that still contain
+        # every operator; the wrapper harness (no selector product) takes all quick shapes
+        C = 'char'
+        hist = [('concat', C, C), ('union', C, C), ('inter', ('star', C), ('comp', C)), ('comp', ('concat', C, 'all')),
+                ('diff', 'all', ('concat', C, 'all')), ('loop', C), ('concat', ('star', C), C), ('union', ('comp', C), C),
+                ('diff', C, ('comp', C)), ('inter', ('comp', C), ('comp', C))]
+    else:
+        hist = shapes
     steps, b = (1, 2) if tier == 'quick' else (2, 2)
     jobs = []
-    for sh in shapes:
-        jobs.append(RJ('vh_c07_hashcons', 0, 1, b, steps, sh, 'hash-consing under %d+%d history steps: %s' % (steps, steps, S.show(sh)), cost=64 ** steps))
+    names = ['char', 'concat', 'union', 'complement', 'derivative', 'compile', 'emptiness', 'star']
+    rnd = random.Random(seed * 97 + 7)
+    for k, sh in enumerate(hist):
+        if tier == 'quick':
+            # concrete histories: every menu entry once before and once after the first build (rotated pairing)
+            for a in range(8):
+                bsel = (a + 1 + k + seed) % 8
+                extra = 1 | (1 << 4) | (a << 8) | (bsel << 12)
+                jobs.append(RJ('vh_c07_hashcons', 0, 1, b, extra, sh, 'hash-consing, history %s | build | %s | rebuild: %s' % (names[a], names[bsel], S.show(sh)), cost=30))
+        else:
+            jobs.append(RJ('vh_c07_hashcons', 0, 1, b, 1, sh, 'hash-consing under all 8x8 one-step histories (symbolic selectors): %s' % S.show(sh), cost=64 * 30))
+            for _ in range(6):
+                sel = [rnd.randrange(8) for _ in range(4)]
+                extra = 2 | (1 << 4) | (sel[0] << 8) | (sel[1] << 12) | (sel[2] << 16) | (sel[3] << 20)
+                jobs.append(RJ('vh_c07_hashcons', 0, 1, b, extra, sh, 'hash-consing, history %s: %s' % ([names[x] for x in sel], S.show(sh)), cost=60))
+    wshapes = [sh for sh in shapes if costs.get(S.show(sh), 0) <= 12.0] if tier == 'quick' else shapes
+    for sh in wshapes:
         jobs.append(RJ('vh_c07_wrappers', 1, 1, b, 0, sh, 'thread-local manager history: %s' % S.show(sh)))
-    return regex_spec(jobs, shapes, tier, 'rebuild after histories of %d steps before and %d after the first build, every step chosen by a symbolic selector from a menu of 8 '
-                      '(char, concat, union, complement, derivative, compile, emptiness, star); pointer identity, == iff identity, complement involution, language '
-                      'independent of history; wrapper variant on the thread-local manager with operand-order variation' % (steps, steps), 1, b)
+    return regex_spec(jobs, shapes, tier, 'rebuild after histories taken from a menu of 8 operations (char, concat, union, complement, derivative, compile, emptiness, star) '
+                      'before and after the first build, on %d shapes: quick = 8 concrete one-step histories per shape (every menu entry before, rotated entry after), '
+                      'thorough = all 64 one-step histories by symbolic selectors plus seed-chosen two-step histories; pointer identity, == iff identity, complement '
+                      'involution, language independent of history; wrapper variant on the thread-local manager with operand-order variation on all shapes' % len(hist), 1, b)
 
 
 def c10(tier, seed):
-    shapes = regex_shapes('C10', tier, seed, cap_quick=40, cap_thorough=100)
+    shapes = regex_shapes('C10', tier, seed, cap_thorough=100)
     ns, tl, b = ((2,), 1, 2) if tier == 'quick' else ((1, 2, 3), 1, 2)
     jobs = [RJ('vh_c10_replace', 1, n, b, tl, sh, 'replace_re / replace_re_all pattern %s |s|=%d |t|=%d' % (S.show(sh), n, tl)) for sh in shapes for n in ns]
     return regex_spec(jobs, shapes, tier, 'str_replace_re / str_replace_re_all through the thread-local manager: leftmost-then-shortest (possibly empty) match, resp. '
